@@ -246,7 +246,18 @@ def run_step(name, c, other, cs, z_new, z_old, k, t, num, out, klass0, idx):
     elif name == "mul":
         structural_result(c * other, out, klass0, name, idx)
     elif name == "div":
-        structural_result(c / other, out, klass0, name, idx)
+        # a quotient is only defined where the denominator has no zero (C08): certified exactly, both signs
+        so = lib.state_of(other)
+        vals = [pt[0] for pt in so.P] if so.scalar and so.w is None else None
+        from .. import gen as _gen
+        certified = vals is not None and (_gen.weight_function_positive(so.U, so.p, vals)
+                                          or _gen.weight_function_positive(so.U, so.p, [-v for v in vals]))
+        samples = [oracle.ceval(so, u)[0] for u in _gen.params_of(so.U, 3)] if so.scalar else []
+        crossing = any(x > 0 for x in samples) and any(x < 0 for x in samples)  # a transversal zero: must be refused
+        if certified or crossing or vals is None:
+            structural_result(c / other, out, klass0, name, idx)
+        else:
+            out.cls("div-skipped:denominator-may-vanish")
     elif name == "neg":
         structural_result(-c, out, klass0, name, idx)
     elif name == "scalar_ops":
